@@ -75,10 +75,26 @@ def hook_commits():
     out = subprocess.check_output(["git", "-C", "/repo", "log", "--format=%h %s"]).decode().splitlines()
     return [l.split(" ", 1)[0] for l in out if l.split(" ", 1)[1].startswith("verif hooks")][::-1]
 
+
+# additions after the third round of seeded changes (appended to the level text of each check)
+ROUND3 = {
+ "C01": " Further scenarios: -stale (the download directory already holds zero-filled files of the right length under the names of listed pieces: a piece counts as stored only when its file holds verified content) and a gated two-adversary scenario (end game, one connection completes a piece correctly, the other then completes it with corrupt data).",
+ "C02": " Tracker-shape scenarios: a 14-address swarm whose later replies exceed the dial budget of 11 and re-list connected peers above the only seeder (inert peers that only keep their connection alive, peers that leave and refuse to be dialled again), a 12-entry reply naming one address twice (stale and current peer id), a re-announce listing a connected address followed by a new one. Extra state invariant on the manager's records: a Reserved piece has a connected, unchoking holder. A tracker-request loop that lets no virtual time pass is cut after 64 requests and reported.",
+ "C08": " Full-session scenarios borrowed from C02 (identity-*): after a re-announce that lists a connected address followed by a new one, the new peer presenting its announced id must stay connected and one presenting the connected peer's id must be dropped; a host re-listed under a new id.",
+ "C10": " tiling2: two connections in end game with repeated unchokes (V<k>) and loss of the other connection (X<k>): the requests written on each connection for a piece still tile it exactly once.",
+ "C11": " -d2 scenarios: a second, gated downloader of the same piece (answers, choke, broadcasts released late) while new connections receive their bitfield.",
+ "C12": " Full-session scenarios borrowed from C02 (reservation-*): 12-entry reply naming one address twice, host re-listed under a new id, seeder plus leaver; judged on the manager's reservation records only.",
+ "C13": " Picks along histories: bitfield / unchoke / answer / disconnect (K<k>) events on 13 pieces (outside end game), every pick judged against the relation with 'being fetched' derived from the connected peers' assignments (not from the status vector).",
+ "C14": " INR scenarios: interest / not-interest / rotation over preset bitfields (2 peers to depth 14 / 18, 3 peers to depth 10 / 13), the optimistic slot counted as flagged AND unchoked.",
+ "C19": " Fault words up to length 2 are followed by the final good reply in every order of its entries (8 orders) while one peer of the first announce stays connected: every listed, not yet connected peer must be dialled.",
+ "C20": " Duo: a second connection keeps answering (and completing the pieces the silent one holds) while the first stays silent: the silent one must still be dropped within three intervals.",
+}
+
 def main():
     checks = []
     for pid in sorted(CHECKS):
         level, technique, engine, text, note, ref = CHECKS[pid]
+        text = text + ROUND3.get(pid, "")
         checks.append({
             "property_id": pid,
             "quick_cmd": "./check %s --tier quick" % pid,
